@@ -210,6 +210,18 @@ impl<T: El> MapWorld<T> {
         h.finish()
     }
 
+    /// Digest of the contents only (len and the sorted key-value pairs; not the capacity).
+    pub fn contents_digest(&self) -> u64 {
+        let mut h = H128::new();
+        h.u64(self.m.len() as u64);
+        let mut v: Vec<(u32, u32)> = self.m.iter().map(|(k, v)| (k.id(), v.id())).collect();
+        v.sort();
+        for (k, x) in v {
+            h.u64(((k as u64) << 32) | x as u64);
+        }
+        h.finish64()
+    }
+
     /// Digest of the public observables of the state.
     pub fn obs_state(&self) -> u64 {
         let mut h = H128::new();
@@ -572,7 +584,7 @@ impl<T: El> MapWorld<T> {
                 // panic, never anything else, and never differently per build profile
                 let hint = [usize::MAX, usize::MAX - 1, isize::MAX as usize, 1usize << 62][(op.arg & 3) as usize];
                 let ids: Vec<u32> = if T::ZST { vec![0] } else { vec![self.next_key, self.next_key + 1] };
-                let before = self.obs_state();
+                let before = self.contents_digest();
                 let elems: Vec<(T, T)> = ids.iter().map(|&q| (Self::mkk(q), Self::mkv(0))).collect();
                 let it = HintIter { inner: elems.into_iter(), hint };
                 let r = catch(|| self.call(|m| m.extend(it)));
@@ -591,8 +603,8 @@ impl<T: El> MapWorld<T> {
                         if !p.to_lowercase().contains("capacity overflow") {
                             vbail!("panic", "extend with size_hint lower bound {:#x}: {}", hint, p);
                         }
-                        if self.obs_state() != before {
-                            vbail!("contract", "extend panicked with a capacity overflow but changed the map");
+                        if self.contents_digest() != before {
+                            vbail!("contract", "extend panicked with a capacity overflow but changed the contents");
                         }
                         obs.u64(2);
                     }
@@ -1089,7 +1101,9 @@ impl<T: El> MapWorld<T> {
         let n = op.arg as usize;
         let len = self.m.len();
         let fallible = op.k == OpK::TryReserve;
-        let before = self.obs_state();
+        // "Err leaves the contents unchanged": the elements, not the capacity (a failed try_reserve
+        // may already have moved the leftovers over, and hashbrown may have reclaimed tombstones)
+        let before = self.contents_digest();
         let esz = std::mem::size_of::<(T, T)>().max(1);
         // Outcomes the statement pins down:
         //  must_fail: len + n (plus head-room) overflows usize
@@ -1124,8 +1138,8 @@ impl<T: El> MapWorld<T> {
                 if must_succeed {
                     vbail!("contract", "{} failed with {} for a small request", op, e);
                 }
-                if self.obs_state() != before {
-                    vbail!("contract", "{} returned Err({}) but changed the map", op, e);
+                if self.contents_digest() != before {
+                    vbail!("contract", "{} returned Err({}) but changed the contents", op, e);
                 }
                 obs.u64(2);
             }
